@@ -96,6 +96,7 @@ class Interp:
         self.model_used = {}
         self.stack_keys = []
         self.inv_checks = {}
+        self.purefun = {}            # canonical result variable of a pure integer function -> its argument variables
         self.ret_hooks = {}          # workspace callee key -> fn(interp, state, caller frame, return value): rule-supplied ghosts
         self._cur = (0, 0, 0)
         self.loops = {}              # (body key, frame id, head bb) -> (head partitions, back-edge states) at the fixpoint
@@ -315,7 +316,54 @@ class Interp:
                 return Seq(Lin.const(t["len"]))
         return v
 
+    # ---- output-buffer write log: per tracked buffer a ghost cell (high-water mark, start of the trailing run of zero
+    # bytes, broken flag).  Invariant: every byte of [0, hw) has been written; bytes of [zlo, hw) were written as zero.
+    def record_write(self, st, seq, lo, hi, kind):
+        if not isinstance(seq, Seq) or seq.view is None:
+            return
+        base, off = seq.view
+        cell = "wlog:" + base
+        g = st.cells.get(cell)
+        if not isinstance(g, Struct):
+            return
+        hw, zlo, broken = g.get(0).e, g.get(1).e, g.get(2).e
+        a, b = off + lo, off + hi
+        if st.sys.entails_eq(a - hw) or (st.sys.entails_ge(hw - a) and st.sys.entails_ge(b - hw) and kind == "zero" and st.sys.entails_ge(a - zlo)):
+            # append (or a zero write overlapping only the trailing zero run)
+            nhw = b
+            nz = zlo if kind == "zero" else b
+            st.cells[cell] = Struct({0: Num(nhw), 1: Num(nz), 2: Num(broken)})
+        elif st.sys.entails_ge(hw - b):
+            # rewrite of bytes already written
+            if kind == "zero" and not st.sys.entails_ge(a - zlo):
+                st.cells[cell] = Struct({0: Num(hw), 1: Num(zlo), 2: Num(Lin.const(1))})      # zero-fill over data already written
+            elif kind != "zero" and not st.sys.entails_ge(zlo - b):
+                st.cells[cell] = Struct({0: Num(hw), 1: Num(hw), 2: Num(broken)})
+        else:
+            st.cells[cell] = Struct({0: Num(hw), 1: Num(zlo), 2: Num(Lin.const(1))})          # gap or unknown position
+
+    def is_zero_value(self, st, v):
+        return isinstance(v, Num) and st.sys.const_value(v.e) == 0
+
     def write_place(self, st, fr, pl, val):
+        if pl["p"] and pl["p"][-1]["k"] in ("index", "cidx"):
+            # element store into a tracked output buffer
+            base_pl = dict(pl, p=pl["p"][:-1])
+            loc0 = self.locate(st, fr, base_pl)
+            sv = self.load(st, loc0[1], loc0[2]) if loc0[0] == "cell" else loc0[1]
+            if isinstance(sv, Seq) and sv.view is not None:
+                p = pl["p"][-1]
+                if p["k"] == "cidx" and not p.get("from_end"):
+                    ix = Lin.const(p["off"])
+                elif p["k"] == "index":
+                    iv = st.cells.get(self.cell_of(fr, p["l"]))
+                    ix = iv.e if isinstance(iv, Num) else None
+                else:
+                    ix = None
+                if ix is not None:
+                    self.record_write(st, sv, ix, ix + 1, "zero" if self.is_zero_value(st, val) else "data")
+                else:
+                    self.record_write(st, sv, Lin.const(0), Lin.const(-1), "data")
         loc = self.locate(st, fr, pl)
         if loc[0] == "cell":
             self.store(st, loc[1], loc[2], val)
@@ -832,8 +880,20 @@ class Interp:
                 chkf = self.inv_checks.get(rv["adt"])
                 if chkf is not None:
                     bb_, part_, si_ = self._cur
-                    for j, (e, descr) in enumerate(chkf(self, st, s)):
-                        self.require_ge(st, fr, bb_, 100 + si_ * 4 + j, part_, e, "type-invariant", descr, fr.body.blocks[bb_]["stmts"][si_].get("span"))
+                    for j, item in enumerate(chkf(self, st, s)):
+                        span_ = fr.body.blocks[bb_]["stmts"][si_].get("span")
+                        if item[0] == "mod":
+                            _, e, m_, descr = item
+                            bad_ = []
+                            for r_ in range(1, m_):
+                                s_ = st.sys.copy()
+                                s_.add_eq(e - Lin.var("zz_q").scale(m_) - r_)
+                                if s_.feasible():
+                                    bad_.append(r_)
+                            self.oblige(fr, bb_, 100 + si_ * 4 + j, part_, "type-invariant", descr, span_, not bad_, "residues %s possible" % bad_ if bad_ else None)
+                            continue
+                        e, descr = item
+                        self.require_ge(st, fr, bb_, 100 + si_ * 4 + j, part_, e, "type-invariant", descr, span_)
                 if a is not None and a["kind"] == "enum":
                     return Enum(rv["adt"], {rv["variant"]: s})
                 if rv["adt"] in ("std::option::Option", "std::result::Result", "std::ops::ControlFlow", "std::ops::Bound"):
@@ -976,7 +1036,11 @@ class Interp:
             return Num(e)
         if isinstance(a, Seq) and isinstance(b, Seq):
             ln = self.join_values(Num(a.len), Num(b.len), sa, sb, phis, name + ".len")
-            return Seq(ln.e, a.elem, weak_join(a.items, b.items))
+            view = None
+            if a.view is not None and b.view is not None and a.view[0] == b.view[0]:
+                off = self.join_values(Num(a.view[1]), Num(b.view[1]), sa, sb, phis, name + ".off")
+                view = (a.view[0], off.e)
+            return Seq(ln.e, a.elem, weak_join(a.items, b.items), view)
         if isinstance(a, Struct) and isinstance(b, Struct) and a.tag == b.tag:
             f = {}
             for i in set(a.f) & set(b.f):
@@ -1012,7 +1076,7 @@ class Interp:
         for v in cells.values():
             v.vars(live)
         for s in (sa, sb):
-            dead = s.vars() - keep_ghosts(s, live, self.ghosts)
+            dead = s.vars() - keep_ghosts(s, live, self.ghosts, self.purefun)
             if dead:
                 s.forget(dead)
         if self.trace == "JOIN":
@@ -1395,6 +1459,23 @@ class Interp:
             outs.append((t["t"], st2, None))
         return outs
 
+    def pure_int_fn(self, body):
+        c = getattr(body, "_pure_int", None)
+        if c is None:
+            c = body.kind in ("fn", "assoc_fn") and body.arg_count >= 1
+            if c:
+                for i in range(0, body.arg_count + 1):
+                    if int_range(body.local_ty(i)) is None:
+                        c = False
+                for blk in body.blocks:
+                    if blk["term"]["k"] in ("call", "tailcall", "drop"):
+                        c = False
+                    for s_ in blk["stmts"]:
+                        if s_["k"] == "assign" and ("static" in repr(s_["rv"]) or s_["rv"]["k"] in ("ref", "rawptr")):
+                            c = False
+            body._pure_int = c
+        return c
+
     def _sig_compatible(self, fr, t, callee):
         from mir import strip_lifetimes
         for i, a in enumerate(t["args"]):
@@ -1430,7 +1511,17 @@ class Interp:
         pre = fid + ":_"
         pre2 = fid + "/"
         hook = self.ret_hooks.get(key) or self.ret_hooks.get(callee.defp)
+        canon = None
+        if argv and all(isinstance(a_, Num) for a_ in argv[:n]) and self.pure_int_fn(callee):
+            # a pure function of integers: equal arguments give equal results, so its result gets a variable
+            # named after (function, arguments); repeated evaluations then agree
+            canon = "f%x" % (hash_str(key + "|" + "|".join(repr(st.sys.reduce(a_.e)) for a_ in argv[:n])) & 0xffffffffffff)
+            self.purefun[canon] = set().union(*[set(a_.e.t) for a_ in argv[:n]]) if argv else set()
         for st2, ret in res:
+            if canon is not None and isinstance(ret, Num):
+                cv = Lin.var(canon)
+                st2.sys.add_eq(cv - ret.e)
+                ret = Num(cv)
             for c in [c for c in st2.cells if c.startswith(pre) or c.startswith(pre2)]:
                 del st2.cells[c]
             if hook is not None:
@@ -1443,7 +1534,7 @@ class Interp:
         live = st.live_vars()
         if extra is not None:
             extra.vars(live)
-        dead = st.sys.vars() - keep_ghosts(st.sys, live, self.ghosts)
+        dead = st.sys.vars() - keep_ghosts(st.sys, live, self.ghosts, self.purefun)
         if dead:
             st.sys.forget(dead)
 
@@ -1500,11 +1591,14 @@ def _generic_ty(s):
     return bool(re.search(r"(^|[^\w:])(Self|[A-Z]\w?|impl |dyn )($|[^\w:]|\b)", s)) or "{closure" in s
 
 
-def keep_ghosts(sys_, live, ghosts):
+def keep_ghosts(sys_, live, ghosts, purefun=None):
     """a quotient ghost q (a = c*q + r) stays alive while its dividend is live and its remainder is a known
     constant, i.e. while `a = c*q + const` is an equality of the system (congruence information)"""
     out = set(live)
     for v in sys_.vars():
+        if purefun and v in purefun and purefun[v] <= live:
+            out.add(v)      # result of a pure integer function whose arguments are still alive
+            continue
         if v[0] == "e" and "@" in v and v.split("@", 1)[1] in live:
             out.add(v)      # byte of an input slice that is still alive
             continue
@@ -1534,7 +1628,8 @@ def rename_value(v, f):
     if isinstance(v, Num):
         return Num(v.e.rename(f))
     if isinstance(v, Seq):
-        return Seq(v.len.rename(f), v.elem, rename_value(v.items, f) if isinstance(v.items, V) else v.items)
+        return Seq(v.len.rename(f), v.elem, rename_value(v.items, f) if isinstance(v.items, V) else v.items,
+                   (v.view[0], v.view[1].rename(f)) if v.view is not None else None)
     if isinstance(v, Struct):
         return Struct({i: rename_value(x, f) for i, x in v.f.items()}, v.tag)
     if isinstance(v, Enum):
@@ -1554,7 +1649,8 @@ def value_leq(a, b, sys_):
     if isinstance(a, Num) and isinstance(b, Num):
         return sys_.entails_eq(a.e - b.e)
     if isinstance(a, Seq) and isinstance(b, Seq):
-        return sys_.entails_eq(a.len - b.len) and (b.items is None or a.items == b.items or isinstance(a.items, Empty))
+        return sys_.entails_eq(a.len - b.len) and (b.items is None or a.items == b.items or isinstance(a.items, Empty)) and \
+            (b.view is None or (a.view is not None and a.view[0] == b.view[0] and sys_.entails_eq(a.view[1] - b.view[1])))
     if isinstance(a, Struct) and isinstance(b, Struct) and a.tag == b.tag:
         return all(i in a.f and value_leq(a.f[i], x, sys_) for i, x in b.f.items())
     if isinstance(a, Enum) and isinstance(b, Enum) and a.adt == b.adt:
